@@ -466,7 +466,11 @@ pub fn write_jax(dir: &Path, files: &JaxFiles) {
 pub fn via_jax(f: &Facts, noise: &JaxNoise, transitive: bool, scratch: &Scratch) -> Result<Ontology, String> {
     let files = render_jax(f, noise);
     write_jax(&scratch.path, &files);
-    let dir = scratch.path.to_str().unwrap().to_string();
+    // the folder argument with and without a trailing slash
+    let mut dir = scratch.path.to_str().unwrap().to_string();
+    if f.terms.len() % 2 == 0 {
+        dir.push('/');
+    }
     let r = guarded(|| {
         if transitive {
             Ontology::from_standard_transitive(&dir)
